@@ -82,7 +82,7 @@ PINNED: dict = {
     "src/spox/_internal_op.py::intros": "099e50b77bae",
     "src/spox/_internal_op.py::unsafe_cast": "2e230593f9e2",
     "src/spox/_internal_op.py::unsafe_reshape": "5f6598e2882c",
-    "src/spox/_public.py::build": "641eeb05684c",
+    "src/spox/_public.py::build": "4e12cc8ddec2",
     "src/spox/_scope.py::Scope.update": "6934704e5e68",
     "src/spox/_traverse.py::iterative_dfs": "d097307d5691"
 }
